@@ -333,8 +333,144 @@ def _check_save(mix, backend, kw, dest, pathspell, root):
         os.chdir(cwd)
 
 
+FAIL_KINDS = ("model_path_is_directory", "unknown_format", "callback_raises_first", "callback_raises_last", "small_lazy_raises", "big_lazy_raises",
+              "callback_raises_BaseException", "existing_shard_file")
+
+
+class _Stop(BaseException):
+    pass
+
+
+def check_failing_save(mix, backend, kw, fail, root):
+    """A save that must raise (at the data write, at a callback, at serialization or when the model file is written):
+    afterwards every initializer of the caller's model holds the tensor object it held before.
+    Returns (outcome, violations)."""
+    v = []
+    wd = os.path.join(root, "workf")
+    if os.path.isdir(wd):
+        shutil.rmtree(wd)
+    os.makedirs(os.path.join(wd, "sub"))
+    model = build_model(mix, wd)
+    kw = dict(kw)
+    path = os.path.join(wd, "m.onnx")
+    dest = "m.data"
+    if fail == "small_lazy_raises":
+        def boom():
+            raise RuntimeError("small lazy")
+
+        t = ir.LazyTensor(boom, dtype=ir.DataType.UINT8, shape=ir.Shape([3]), name="lz_small")
+        model.graph.initializers.add(ir.Value(name="lz_small", const_value=t))
+    elif fail == "big_lazy_raises":
+        def boom2():
+            raise RuntimeError("big lazy")
+
+        t = ir.LazyTensor(boom2, dtype=ir.DataType.UINT8, shape=ir.Shape([3000]), name="lz_big")
+        model.graph.initializers.add(ir.Value(name="lz_big", const_value=t))
+    elif fail == "model_path_is_directory":
+        path = os.path.join(wd, "is_a_directory.onnx")
+        os.makedirs(path)
+    elif fail == "unknown_format":
+        kw["format"] = "no-such-format"
+    elif fail.startswith("callback_raises"):
+        n_ext = [0]
+
+        def cb(tensor, info):
+            n_ext[0] += 1
+            if fail == "callback_raises_first" and info.index == 0:
+                raise RuntimeError("callback")
+            if fail == "callback_raises_last" and info.index == info.total - 1:
+                raise RuntimeError("callback")
+            if fail == "callback_raises_BaseException" and info.index == 0:
+                raise _Stop()
+
+        kw["callback"] = cb
+    elif fail == "existing_shard_file":
+        # only the raw backend documents that it refuses to overwrite shard files
+        if kw.get("max_shard_size_bytes") is None or backend != "raw":
+            return "not_applicable", v
+    inits = initializers_of(model)
+    before_obj = [(val, val.const_value) for _, val in inits]
+    before_mem = [(val.name, bytes(val.const_value.tobytes())) for _, val in inits
+                  if isinstance(val.const_value, ir.Tensor) and not isinstance(val.const_value, (ir.ExternalTensor, ir.LazyTensor))]
+    if fail == "existing_shard_file":
+        # put a foreign file where the last shard of a two-or-more shard layout would go (found by a dry run elsewhere)
+        probe = os.path.join(root, "probe")
+        if os.path.isdir(probe):
+            shutil.rmtree(probe)
+        os.makedirs(probe)
+        try:
+            pm = build_model(mix, probe)
+            if backend == "raw":
+                ir.save(pm, os.path.join(probe, "m.onnx"), external_data=dest, **kw)
+            else:
+                ir.save_safetensors(pm, os.path.join(probe, "m.onnx"), **kw)
+        except Exception:  # noqa: BLE001
+            return "not_applicable", v
+        shards = sorted(f for f in os.listdir(probe) if "-of-" in f)
+        if len(shards) < 2:
+            return "not_applicable", v
+        with open(os.path.join(wd, shards[-1]), "wb") as f:
+            f.write(b"FOREIGN")
+    try:
+        if backend == "raw":
+            ir.save(model, path, external_data=dest, **kw)
+        else:
+            ir.save_safetensors(model, path, **kw)
+        exc = None
+    except BaseException as e:  # noqa: BLE001
+        exc = e
+    if exc is None:
+        if fail.startswith("callback_raises") and n_ext[0] == 0:
+            return "nothing_externalised", v  # no tensor above the threshold: the callback is never called
+        if fail == "small_lazy_raises" and kw.get("size_threshold_bytes", 0) > 3 and False:
+            pass
+        v.append(("save_expected_to_raise_returned", fail))
+        return "returned", v
+    for val, obj in before_obj:
+        if val.const_value is not obj:
+            v.append(("model_holds_a_different_tensor_object_after_failed_save", f"{val.name}: {type(val.const_value).__name__} instead of {type(obj).__name__} ({fail}: {type(exc).__name__})"))
+            break
+    now = {val.name: val for _, val in initializers_of(model)}
+    for name, b in before_mem:
+        if name in now and isinstance(now[name].const_value, ir.Tensor) and not isinstance(now[name].const_value, ir.ExternalTensor):
+            if bytes(now[name].const_value.tobytes()) != b:
+                v.append(("in_memory_tensor_changed_by_failed_save", name))
+                break
+    if {n for n in now} != {val.name for val, _ in before_obj}:
+        v.append(("initializer_set_changed_by_failed_save", sorted(set(now) ^ {val.name for val, _ in before_obj})[:3]))
+    return "raised", v
+
+
+def _fail_grid(tier, backend):
+    th = (0, 8, 10**6)
+    sh = (None, 400)
+    wk = (None, 2) if backend == "raw" else (None,)
+    for t, s_, w in itertools.product(th, sh, wk):
+        kw = dict(size_threshold_bytes=t, max_shard_size_bytes=s_)
+        if backend == "raw":
+            kw["max_workers"] = w
+        yield kw
+
+
 def _work(task):
     mix, backend, tier = task
+    if mix.startswith("failing:"):
+        mix = mix.split(":", 1)[1]
+        root = common.scratch_dir("c07f")
+        n = 0
+        outcomes, found = {}, {}
+        try:
+            for kw in _fail_grid(tier, backend):
+                for fail in FAIL_KINDS:
+                    n += 1
+                    out, v = check_failing_save(mix, backend, kw, fail, root)
+                    outcomes[f"failing:{out}"] = outcomes.get(f"failing:{out}", 0) + 1
+                    for clause, detail in v:
+                        key = f"{backend}|{clause}|{fail}"
+                        found.setdefault(key, {"mix": mix, "backend": backend, "options": dict(kw, **({"callback": "<raising>"} if "callback" in fail else {})), "dest": "m.data", "path": "absolute", "clause": clause, "detail": detail, "short_copy": False, "fail": fail})
+        finally:
+            shutil.rmtree(root, ignore_errors=True)
+        return "failing:" + mix, backend, n, outcomes, found
     root = common.scratch_dir("c07")
     n = 0
     outcomes = {}
@@ -356,6 +492,7 @@ def _work(task):
 def main(tier):
     r = common.Run("C07", "exploration", tier)
     tasks = [(m, "raw", tier) for m in MIXES] + [(m, "safetensors", tier) for m in MIXES if m != "resave_in_place"]
+    tasks += [("failing:" + m, b, tier) for m in MIXES for b in ("raw", "safetensors") if not (m == "resave_in_place" and b == "safetensors")]
     res = common.pmap(_work, tasks, chunksize=1)
     total = 0
     outcomes = {}
